@@ -209,6 +209,15 @@ def monitor(case, out):
         elif h == "MSCAL":
             t = M[int(a[2])]; c = int(a[3])
             mexp = [[OPS[a[1]](t.vals[i][j], c) if t.stored(i, j) else 0 for j in range(t.c)] for i in range(t.r)]
+        elif h == "MFILL":
+            old = M[int(a[1])]; sd = int(a[2]); mexp = [[(7 * i + 13 * j + sd) % 11 - 5 for j in range(old.c)] for i in range(old.r)]
+        elif h == "DKA":
+            t, s = M[int(a[1])], M[int(a[2])]; mexp = [list(r) for r in s.vals]
+            key = "dense-kernel:matrix_assign<%s,%s>:%dx%d" % (t.orient, s.orient, t.r, t.c)
+        elif h == "DKF":
+            f = FUN[a[1]]; c = int(a[2]); t, s = M[int(a[3])], M[int(a[4])]
+            key = "dense-kernel:matrix_assign_functor<%s,%s>:%s:%dx%d" % (t.orient, s.orient, a[1], t.r, t.c)
+            mexp = [[f(t.vals[i][j], s.vals[i][j], c) for j in range(t.c)] for i in range(t.r)]
         elif h == "XM":
             t = M[int(a[3])]; shape = int(a[5]); k = int(a[8]); A, B = M[int(a[6])], M[int(a[7])]
             key = "sparse-expr:matrix:shape%d:%s:%s:%s%s<-%s" % (shape, a[1], a[2], t.kind, t.orient, a[4])
@@ -224,7 +233,7 @@ def monitor(case, out):
             return ["sparse:%s %sunknown command" % (h, tag)]
         if st.vals != mexp:
             return ["%s %selement-wise meaning violated: observed %s, expected %s" % (key, tag, st.vals, mexp)]
-        M[int(a[1] if h in ("NSM", "NDM", "MPUT", "MRESERVE", "MMRES", "MCLEAR", "MCLRR", "MKA") else a[3] if h in ("MKF", "MOP", "XM") else a[2])] = st
+        M[int(a[1] if h in ("NSM", "NDM", "MPUT", "MRESERVE", "MMRES", "MCLEAR", "MCLRR", "MKA", "MFILL", "DKA") else a[3] if h in ("MKF", "MOP", "XM", "DKF") else a[2])] = st
     return []
 
 
@@ -355,6 +364,24 @@ def gen_matrix_case(rng):
     return L
 
 
+def gen_block_case(rng):
+    """dense <- dense matrices of opposite (and equal) orientation, shapes around the 8x8 / 16x16 blocking"""
+    dims = [1, 2, 7, 8, 9, 15, 16, 17, 23, 24, 31, 32, 33, 35]
+    r, c = rng.choice(dims), rng.choice(dims)
+    kinds = [rng.choice("RC") for _ in range(3)]
+    if len(set(kinds)) == 1: kinds[1] = "C" if kinds[0] == "R" else "R"
+    L = ["RESET"]
+    for i, k in enumerate(kinds):
+        L.append("NDM %d %s %d %d" % (i, k, r, c)); L.append("MFILL %d %d" % (i, rng.randint(0, 10)))
+    for _ in range(rng.randint(2, 4)):
+        t, s = rng.sample(range(3), 2)
+        if rng.random() < 0.35: L.append("DKA %d %d" % (t, s))
+        else:
+            f = rng.choice(["add", "sub", "mul", "mad", "sqp1", "rsub"])
+            L.append("DKF %s %d %d %d" % (f, rng.choice([-2, 2, 3]) if f == "mad" else 0, t, s))
+    return L
+
+
 # the inputs that exposed the defects repaired by 88237f8b / 245464d7 (run first, every time)
 REGRESSION = [
     ["RESET", "NSV 0 6", "NSV 1 6", "PUT 0 1 5", "PUT 0 3 7", "PUT 1 0 2", "PUT 1 3 4", "PUT 1 5 9", "OP plain += 0 1"],
@@ -433,6 +460,11 @@ def valid(case):
                 if M[s0][0] != "s" or M[t][2:] != M[s0][2:]: return False
                 if t == s0 and not (h == "MOP" and a[1] == "plain"): return False
                 if h == "MOP" and a[1] == "plain" and a[2] == "=" and M[t][0] == "s" and M[t][1] != M[s0][1]: return False
+            elif h == "MFILL":
+                if M[int(a[1])][0] != "d": return False
+            elif h in ("DKA", "DKF"):
+                t, s0 = (int(a[1]), int(a[2])) if h == "DKA" else (int(a[3]), int(a[4]))
+                if M[t][0] != "d" or M[s0][0] != "d" or M[t][2:] != M[s0][2:] or t == s0: return False
             elif h == "XM":
                 t = int(a[3]); shape = int(a[5]); ids = a[6:7] if shape == 2 else a[6:8]
                 for x in ids:
@@ -523,6 +555,8 @@ def stream(ck, rng, ncases):
     nfixed = len(cases)
     for k in range(ncases):
         cases.append(gen_vector_case(rng) if k % 2 == 0 else gen_matrix_case(rng))
+    for k in range(max(6, ncases // 25)):
+        cases.append(gen_block_case(rng))
     bad = [c for c in cases if not valid(c)]
     if bad: raise RuntimeError("generator produced an ill-formed sparse case: %r" % bad[0])
     tmpd = os.path.join(BUILD, "tmp", "C01", "sparse")
